@@ -30,6 +30,22 @@ KEYS = {"fix_bz_rewind": "C02/bzip2/seek-to-before-window",
         "fix_negseek": "C02/raw/all-padding-read-seeks-negative",
         "fix_phase_sign": "C17/phase/pointer-shift-applied-with-wrong-sign"}
 E_RANGE, E_RECURSE, E_DOMAIN, E_IO = -8, -10, -28, -5
+ALL_TYPES = ["i8", "u8", "i16", "u16", "i32", "u32", "i64", "u64", "f32", "f64", "c64", "c128"]
+FLOAT_TYPES = ("f32", "f64", "c64", "c128")
+_RANGE = {"i8": (-128, 127), "u8": (0, 255), "i16": (-32768, 32767), "u16": (0, 65535), "i32": (-2**31, 2**31 - 1),
+          "u32": (0, 2**32 - 1), "i64": (-2**63, 2**63 - 1), "u64": (0, 2**64 - 1),
+          "f32": (-2**24, 2**24), "c64": (-2**24, 2**24), "f64": (-2**53, 2**53), "c128": (-2**53, 2**53)}
+
+
+def rep(v, T):
+    """is the value exactly representable in return type T (NaN = the padding of a float type)"""
+    if v != v: return T in FLOAT_TYPES
+    lo, hi = _RANGE[T]
+    return lo <= v <= hi
+
+
+def fmtv(v):
+    return "nan" if v != v else str(int(v))
 
 
 # ---------------------------------------------------------------- dirfiles
@@ -124,8 +140,36 @@ class Spec:
                 if cj == g["cval"]:
                     return self.val(g["in"], j)
                 j -= 1
-            return 0
+            return float("nan") if self.fl else 0      # _GD_FillZero(start, return_type)
         raise ValueError(kd)
+
+    fl = False     # is the return type of the read being evaluated a floating point / complex type
+
+    def ok_type(self, f, s, n, T):
+        """are all inputs and results of reading [s, s+n) of f exactly representable in return type T
+        (inputs are read in T: PHASE/LINCOM/MPLEX pass it down, MULTIPLY reads its first input in T;
+        BIT reads its input as a 64-bit integer whatever T is)"""
+        self.fl = T in FLOAT_TYPES
+        res = self.window(f, s, n)
+        if not all(rep(v, T) for v in res): return False
+        if f in self.raw: return True
+        g = self.der[f]; kd = g["kind"]
+        m = len(res)
+        if kd == "P": return self.ok_type(g["in"], s + g["shift"], m, T)
+        if kd == "L": return self.ok_type(g["in"], s, m, T)
+        if kd == "B": return True
+        if kd == "M": return self.ok_type(g["a"], s, m, T)
+        if kd == "X":
+            if not self.ok_type(g["in"], s, m, T): return False
+            self.fl = T in FLOAT_TYPES
+            j = s
+            while j >= 0:
+                if self.val(g["cnt"], j) == g["cval"]:
+                    v = self.val(g["in"], j)
+                    return v is None or rep(v, T)
+                j -= 1
+            return True
+        return False
 
     def window(self, f, s, n):
         out = []
@@ -386,10 +430,43 @@ def gen_case(rng, encs=None, model_only=False):
     nops = rng.randint(5, 60)
     bad = rng.random() < 0.06
     FO = foff * spf
+    last_type = {}; last_read = {}
+
+    def gen_put(rf, at, vals):
+        ops.append(("p", rf, at, len(vals), "i64", vals))
+        a = sp.data[rf]; j = at - sp.foff
+        if j > len(a): a.extend([0] * (j - len(a)))
+        a[j:j + len(vals)] = vals
+
+    def pick_type(f, st, n):
+        """a return type in which every input and result of this read is exactly representable; changes
+        from the previous read of the same field most of the time (the value must not depend on it)"""
+        if st == "H":
+            cand = ["i32", "i64", "f32", "f64", "c64", "c128"]     # all generated values are below 2^24 in magnitude
+            if any(g["kind"] == "X" for g in derived): cand = ["i32", "i64"]   # the MPLEX padding differs by type family
+        else:
+            cand = [T for T in ALL_TYPES if sp.ok_type(f, st, n, T)] or ["i64"]
+        pref = [T for T in cand if T != last_type.get(f)]
+        T = rng.choice(pref if pref and rng.random() < 0.8 else cand)
+        if st != "H" and rng.random() < 0.12:
+            # any type at all: the answer of this read is then not judged unless representable, but it
+            # must not influence what later reads (in a type that does hold the values) return
+            T = rng.choice(ALL_TYPES)
+        last_type[f] = T
+        if st != "H": last_read[f] = (st, len(sp.window(f, st, n)))
+        return T
+
     for _ in range(nops):
         f = rng.choice(fields)
         e = sp.eof(f)
         u = rng.random()
+        if last_read and rng.random() < 0.15:
+            # continue an earlier read of some field where it ended, in another return type
+            # (a differently split window must give the same samples)
+            f2 = rng.choice(sorted(last_read)); s2, m2 = last_read[f2]
+            n2 = rng.choice([1, 2, 3, 5, 8])
+            ops.append(("g", f2, s2 + m2, n2, pick_type(f2, s2 + m2, n2)))
+            continue
         def position():
             c = rng.random()
             size = SIZE[raws[0]["type"]]
@@ -404,17 +481,16 @@ def gen_case(rng, encs=None, model_only=False):
             if rng.random() < 0.5:
                 # aimed at the start-value cache: read [s, s+n), change a sample just before s+n, read on from s+n
                 s_ = max(FO, position()); n_ = rng.randint(3, 12)
-                ops.append(("g", "mx", s_, n_, "i64"))
-                ops.append(("p", rf, max(FO, s_ + n_ - 1 - rng.randint(0, 3)), 1, "i64", [rng.randint(lo, hi)]))
-                ops.append(("g", "mx", s_ + n_, 3, "i64"))
+                ops.append(("g", "mx", s_, n_, pick_type("mx", s_, n_)))
+                gen_put(rf, max(FO, s_ + n_ - 1 - rng.randint(0, 3)), [rng.randint(lo, hi)])
+                ops.append(("g", "mx", s_ + n_, 3, pick_type("mx", s_ + n_, 3)))
             else:
-                ops.append(("p", rf, stp, nn, "i64", [rng.randint(lo, hi) for _ in range(nn)]))
+                gen_put(rf, stp, [rng.randint(lo, hi) for _ in range(nn)])
             continue
         if u < 0.55:
             st = "H" if rng.random() < 0.18 else position()
             n = rng.choice([0, 1, 1, 2, 3, 5, 8, 13, 40, 70, 200]) if rng.random() < 0.8 else rng.randint(0, 64)
-            over_mx = any(g["kind"] == "X" for g in derived) and (f.startswith("mx"))
-            ops.append(("g", f, st, n, rng.choice(["i64", "i32"]) if over_mx else rng.choice(["i64", "i64", "f64", "i32"])))
+            ops.append(("g", f, st, n, pick_type(f, st, n)))
         elif u < 0.70:
             w = rng.choice("SSSCE")
             off = position() if w == "S" else rng.randint(-6, 6) if w == "C" else rng.randint(-8, 2)
@@ -431,6 +507,7 @@ def gen_case(rng, encs=None, model_only=False):
         else:
             ops.append(("t", f))
     case["ops"] = ops
+    case["derived"] = derived
     return case
 
 
@@ -474,13 +551,16 @@ def judge_spec(case, res):
         if k == "g":
             f, st, n = o[1], o[2], o[3]
             exp = None
+            sp.fl = o[4] in FLOAT_TYPES
             if st == "H":
                 if f in fp and not multi(f):
-                    exp = ("D " + " ".join(str(v) for v in sp.window(f, fp[f], n))).strip()
+                    exp = ("D " + " ".join(fmtv(v) for v in sp.window(f, fp[f], n))).strip()
             elif st < -1:
                 exp = "E %d" % E_RANGE
             elif st >= 0:
-                exp = ("D " + " ".join(str(v) for v in sp.window(f, st, n))).strip()
+                if sp.ok_type(f, st, n, o[4]):
+                    sp.fl = o[4] in FLOAT_TYPES
+                    exp = ("D " + " ".join(fmtv(v) for v in sp.window(f, st, n))).strip()
             if exp is not None and exp != got: bad.append((i, exp, got))
             if n > 0 or st != "H": fp = {}
         elif k == "s":
@@ -546,11 +626,15 @@ def shrink(exe, work, case, i, budget=80):
 
 def compare_model(case, res, mout, opmap):
     """first op where the model (until it reports undefined behaviour) and the implementation differ"""
+    sp = Spec(case)
     for j, m in enumerate(mout):
         i = opmap[j] if j < len(opmap) else None
         if i is None: continue
         m0 = m.split(" #")[0].strip()
         if m0 in ("UB", "X"): return None
+        o = case["ops"][i]
+        if o[0] == "g" and o[2] != "H" and o[2] >= 0 and not sp.ok_type(o[1], o[2], o[3], o[4]):
+            continue       # the model has no types: a read whose values the return type cannot hold is not compared
         got = impl_canon(res[i][0])
         if m0 != got: return (i, m0, got)
     return None
@@ -611,14 +695,6 @@ MPLEX_KEY = "C02/mplex/lookback-restores-pointers-with-whence-as-file-mode"
 MPLEX_CACHE_KEY = "C02/mplex/start-value-cache-survives-putdata-on-an-input"
 
 WITNESSES = {
-    MPLEX_CACHE_KEY: dict(
-        enc="none", raws=[dict(name="r0", type="UINT8", vals=list(range(100))), dict(name="r1", type="UINT8", vals=[k % 4 for k in range(100)])],
-        derived=[dict(name="mx", kind="X", cnt="r1", cval=2, period=0, **{"in": "r0"})],
-        ops=[("k", -1), ("g", "mx", 10, 9, "i64"), ("p", "r0", 18, 1, "i64", [200]), ("g", "mx", 19, 3, "i64")]),
-    MPLEX_KEY: dict(
-        enc="gzip", raws=[dict(name="a", type="UINT8", vals=list(range(100))), dict(name="c", type="UINT8", vals=[k % 4 for k in range(100)])],
-        derived=[dict(name="mx", kind="X", cnt="c", cval=2, period=0, **{"in": "a"})],
-        ops=[("l", 2), ("g", "mx", 17, 2, "i64")]),
     "C02/bzip2/seek-to-before-window": dict(
         enc="bzip2", raws=[dict(name="a", type="UINT8", vals=list(range(200)))],
         ops=[("g", "a", 150, 4, "i64"), ("g", "a", 3, 4, "i64")]),
